@@ -29,6 +29,8 @@ type Ctx struct {
 	Tier  string
 	Only  int
 	Repo  string
+	Dir   string
+	Script string
 	Rng   *rand.Rand
 	out   *bufio.Writer
 	mu    sync.Mutex
